@@ -46,6 +46,7 @@ class Screen:
         self.rows = [[" "] * w for _ in range(h)]
         self.r = self.c = 0
         self.pend = False
+        self.hist = []          # rows that scrolled off the top, oldest first (text)
         if rows:
             for i, t in enumerate(rows[:h]):
                 self._put_text(i, t)
@@ -67,6 +68,7 @@ class Screen:
 
     def lf(self):
         if self.r == self.h - 1:
+            self.hist.append(self.text(0))
             self.rows.pop(0)
             self.rows.append([" "] * self.w)
         else:
@@ -264,3 +266,18 @@ def replay_history(case, outs):
                 if r < len(q) or win[r - len(q):r] != q or any(win[r:]):
                     return k, "after Stop the rows above the cursor row %d show %r, the newline-terminated lines of the final view are %r" % (r, win, q)
     return None
+
+
+def wrap(line, w):
+    """the rows a line written at column 0 occupies on a terminal of width w (autowrap; a wide rune that does not fit in
+    the last column wraps early), as texts"""
+    rows, cur, n = [], [], 0
+    for c in strip_sgr(line):
+        k = cw(c)
+        if n + k > w:
+            rows.append("".join(cur))
+            cur, n = [], 0
+        cur.append(c)
+        n += k
+    rows.append("".join(cur))
+    return [r.rstrip(" ") for r in rows]
